@@ -293,138 +293,142 @@ Section Pump.
 
   (* ---- peek --------------------------------------------------------------------------- *)
   (* [d] bounds the nesting  peek -> directive operand -> peek ;  [n] the loop inside one peek *)
+  (* one peek: the loop over the innermost source; [pk'] is peek one nesting level down (operands of the
+     macro-like directives are themselves read through peek) *)
+  Fixpoint pk_loop (pk' : fstate -> outcome (option token * fstate)) (n : nat) (s : fstate) {struct n}
+    : outcome (option token * fstate) :=
+    let nx' (s : fstate) := '(t, s1) <- pk' s ;; Ok (t, drop s1) in
+    let loop := pk_loop pk' in
+    match n with
+    | O => Crash CkFuel
+    | S n' =>
+      match f_stash s with
+      | Some t => Ok (Some t, s)
+      | None =>
+        match f_src s with
+        | [] => Ok (None, s)
+        | (src, dir) :: rest =>
+          match src_next src with
+          | RCrash => Crash CkIndex
+          | REnd => loop n' (u_src s rest)
+          | RTok t src1 =>
+            let s1 := u_src s ((src1, dir) :: rest) in
+            match t with
+            | TSym SyBackslash =>
+              (* must be followed, in the same source, by a comment or a line break *)
+              match src_next src1 with
+              | RCrash => Crash CkIndex
+              | REnd => Diag DkSyntax
+              | RTok (TComment | TNewline) src2 => loop n' (u_src s ((src2, dir) :: rest))
+              | RTok _ _ => Diag DkSyntax
+              end
+            | _ =>
+              if f_recording s then Ok (Some t, u_stash s1 (Some t))
+              else
+                match t with
+                | TLabel LkGlobal v =>
+                  match assoc_b (f_macros s1) v with
+                  | Some m =>
+                    '(args, s2) <- collect_args nx' budget (m_nargs m) (m_nargs m) [] s1 ;;
+                    let (ent, s3) := bump s2 in
+                    loop n' (push_src s3 (SrcMacro (m_body m) args ent None))
+                  | None => Ok (Some t, u_stash s1 (Some t))
+                  end
+                | TDir DString =>
+                  '(txt, s2) <- collect_text nx' budget 0 [] s1 ;;
+                  loop n' (u_stash s2 (Some (TString txt)))
+                | TDir DLabel =>
+                  '(txt, s2) <- collect_text nx' budget 0 [] s1 ;;
+                  tk <- label_of_text txt ;;
+                  loop n' (u_stash s2 (Some tk))
+                | TDir DCount =>
+                  '(v, s2) <- g_const pk' s1 ;;
+                  if v <? 0 then Diag DkRange
+                  else
+                    let (ent, s3) := bump s2 in
+                    let (body, s4) := with_stash (count_toks (Z.to_nat v) 0) s3 in
+                    loop n' (push_src s4 (SrcMacro body [] ent None))
+                | TDir DHex =>
+                  '(v, s2) <- g_const pk' s1 ;;
+                  let (ent, s3) := bump s2 in
+                  let (body, s4) := with_stash [MTok (TString (fmt_hex v))] s3 in
+                  loop n' (push_src s4 (SrcMacro body [] ent None))
+                | TDir DBin =>
+                  '(v, s2) <- g_const pk' s1 ;;
+                  let (ent, s3) := bump s2 in
+                  let (body, s4) := with_stash [MTok (TString (fmt_bin v))] s3 in
+                  loop n' (push_src s4 (SrcMacro body [] ent None))
+                | TDir DGetMeta =>
+                  '(t1, s2) <- nx' s1 ;;
+                  match t1 with
+                  | Some (TLabel k v) =>
+                    direct <- pump_qualify s2 k v ;;
+                    '(t2, s3) <- nx' s2 ;;
+                    match t2 with
+                    | Some (TSym SyComma) =>
+                      '(t3, s4) <- nx' s3 ;;
+                      match t3 with
+                      | Some (TString key) =>
+                        let toks :=
+                          match lookup (a_st (f_a s4)) direct with
+                          | Some e => map (fun kv => MTok (TString (snd kv)))
+                                          (filter (fun kv => bytes_eqb (fst kv) key) (e_meta e))
+                          | None => [MTok (TString [])]
+                          end in
+                        let (ent, s5) := bump s4 in
+                        loop n' (push_src s5 (SrcMacro toks [] ent None))
+                      | _ => Diag DkSyntax
+                      end
+                    | _ => Diag DkSyntax
+                    end
+                  | _ => Diag DkSyntax
+                  end
+                | TDir DParse =>
+                  '(t1, s2) <- nx' s1 ;;
+                  match t1 with
+                  | Some (TString str) =>
+                    match assoc_b (f_lex s2) str with
+                    | Some ts => loop n' (push_src s2 (SrcToks ts))
+                    | None => Diag DkNeedLex
+                    end
+                  | _ => Diag DkSyntax
+                  end
+                | TDir DEach =>
+                  '(t1, s2) <- nx' s1 ;;
+                  match t1 with
+                  | Some (TLabel LkGlobal var) =>
+                    '(t2, s3) <- nx' s2 ;;
+                    match t2 with
+                    | Some (TSym SyComma) =>
+                      '(elems, s4) <- collect_list nx' budget 0 [] s3 ;;
+                      let (ent, s5) := bump s4 in
+                      '(body, s6) <- each_body nx' budget var [] s5 ;;
+                      let dir6 := cur_dir s6 in
+                      loop n' (u_src s6 (map (fun e => (SrcMacro body [[e]] ent None, dir6)) elems ++ f_src s6))
+                    | _ => Diag DkSyntax
+                    end
+                  | _ => Diag DkSyntax
+                  end
+                | TDir DIsDef =>
+                  '(t1, s2) <- nx' s1 ;;
+                  match t1 with
+                  | Some (TLabel k v) =>
+                    direct <- pump_qualify s2 k v ;;
+                    loop n' (u_stash s2 (Some (TNumber (if defined (a_st (f_a s2)) direct then 1 else 0))))
+                  | _ => Diag DkSyntax
+                  end
+                | _ => Ok (Some t, u_stash s1 (Some t))
+                end
+            end
+          end
+        end
+      end
+    end.
+
   Fixpoint pk (d : nat) (s0 : fstate) : outcome (option token * fstate) :=
     match d with
     | O => Crash CkFuel
-    | S d' =>
-      let pk' := pk d' in
-      let nx' (s : fstate) := '(t, s1) <- pk' s ;; Ok (t, drop s1) in
-      (fix loop (n : nat) (s : fstate) {struct n} : outcome (option token * fstate) :=
-         match n with
-         | O => Crash CkFuel
-         | S n' =>
-           match f_stash s with
-           | Some t => Ok (Some t, s)
-           | None =>
-             match f_src s with
-             | [] => Ok (None, s)
-             | (src, dir) :: rest =>
-               match src_next src with
-               | RCrash => Crash CkIndex
-               | REnd => loop n' (u_src s rest)
-               | RTok t src1 =>
-                 let s1 := u_src s ((src1, dir) :: rest) in
-                 match t with
-                 | TSym SyBackslash =>
-                   (* must be followed, in the same source, by a comment or a line break *)
-                   match src_next src1 with
-                   | RCrash => Crash CkIndex
-                   | REnd => Diag DkSyntax
-                   | RTok (TComment | TNewline) src2 => loop n' (u_src s ((src2, dir) :: rest))
-                   | RTok _ _ => Diag DkSyntax
-                   end
-                 | _ =>
-                   if f_recording s then Ok (Some t, u_stash s1 (Some t))
-                   else
-                     match t with
-                     | TLabel LkGlobal v =>
-                       match assoc_b (f_macros s1) v with
-                       | Some m =>
-                         '(args, s2) <- collect_args nx' budget (m_nargs m) (m_nargs m) [] s1 ;;
-                         let (ent, s3) := bump s2 in
-                         loop n' (push_src s3 (SrcMacro (m_body m) args ent None))
-                       | None => Ok (Some t, u_stash s1 (Some t))
-                       end
-                     | TDir DString =>
-                       '(txt, s2) <- collect_text nx' budget 0 [] s1 ;;
-                       loop n' (u_stash s2 (Some (TString txt)))
-                     | TDir DLabel =>
-                       '(txt, s2) <- collect_text nx' budget 0 [] s1 ;;
-                       tk <- label_of_text txt ;;
-                       loop n' (u_stash s2 (Some tk))
-                     | TDir DCount =>
-                       '(v, s2) <- g_const pk' s1 ;;
-                       if v <? 0 then Diag DkRange
-                       else
-                         let (ent, s3) := bump s2 in
-                         let (body, s4) := with_stash (count_toks (Z.to_nat v) 0) s3 in
-                         loop n' (push_src s4 (SrcMacro body [] ent None))
-                     | TDir DHex =>
-                       '(v, s2) <- g_const pk' s1 ;;
-                       let (ent, s3) := bump s2 in
-                       let (body, s4) := with_stash [MTok (TString (fmt_hex v))] s3 in
-                       loop n' (push_src s4 (SrcMacro body [] ent None))
-                     | TDir DBin =>
-                       '(v, s2) <- g_const pk' s1 ;;
-                       let (ent, s3) := bump s2 in
-                       let (body, s4) := with_stash [MTok (TString (fmt_bin v))] s3 in
-                       loop n' (push_src s4 (SrcMacro body [] ent None))
-                     | TDir DGetMeta =>
-                       '(t1, s2) <- nx' s1 ;;
-                       match t1 with
-                       | Some (TLabel k v) =>
-                         direct <- pump_qualify s2 k v ;;
-                         '(t2, s3) <- nx' s2 ;;
-                         match t2 with
-                         | Some (TSym SyComma) =>
-                           '(t3, s4) <- nx' s3 ;;
-                           match t3 with
-                           | Some (TString key) =>
-                             let toks :=
-                               match lookup (a_st (f_a s4)) direct with
-                               | Some e => map (fun kv => MTok (TString (snd kv)))
-                                               (filter (fun kv => bytes_eqb (fst kv) key) (e_meta e))
-                               | None => [MTok (TString [])]
-                               end in
-                             let (ent, s5) := bump s4 in
-                             loop n' (push_src s5 (SrcMacro toks [] ent None))
-                           | _ => Diag DkSyntax
-                           end
-                         | _ => Diag DkSyntax
-                         end
-                       | _ => Diag DkSyntax
-                       end
-                     | TDir DParse =>
-                       '(t1, s2) <- nx' s1 ;;
-                       match t1 with
-                       | Some (TString str) =>
-                         match assoc_b (f_lex s2) str with
-                         | Some ts => loop n' (push_src s2 (SrcToks ts))
-                         | None => Diag DkNeedLex
-                         end
-                       | _ => Diag DkSyntax
-                       end
-                     | TDir DEach =>
-                       '(t1, s2) <- nx' s1 ;;
-                       match t1 with
-                       | Some (TLabel LkGlobal var) =>
-                         '(t2, s3) <- nx' s2 ;;
-                         match t2 with
-                         | Some (TSym SyComma) =>
-                           '(elems, s4) <- collect_list nx' budget 0 [] s3 ;;
-                           let (ent, s5) := bump s4 in
-                           '(body, s6) <- each_body nx' budget var [] s5 ;;
-                           let dir6 := cur_dir s6 in
-                           loop n' (u_src s6 (map (fun e => (SrcMacro body [[e]] ent None, dir6)) elems ++ f_src s6))
-                         | _ => Diag DkSyntax
-                         end
-                       | _ => Diag DkSyntax
-                       end
-                     | TDir DIsDef =>
-                       '(t1, s2) <- nx' s1 ;;
-                       match t1 with
-                       | Some (TLabel k v) =>
-                         direct <- pump_qualify s2 k v ;;
-                         loop n' (u_stash s2 (Some (TNumber (if defined (a_st (f_a s2)) direct then 1 else 0))))
-                       | _ => Diag DkSyntax
-                       end
-                     | _ => Ok (Some t, u_stash s1 (Some t))
-                     end
-                 end
-               end
-             end
-           end
-         end) budget s0
+    | S d' => pk_loop (pk d') budget s0
     end.
 End Pump.
 
